@@ -47,5 +47,6 @@ theorem setAccessTimeShape : Facts.setAccessTimeShape = Spec.setAccessTimeShape 
 theorem getAccessCall : Facts.getAccessCall = Spec.getAccessCall := by rfl
 theorem getStorageMetadataShape : Facts.getStorageMetadataShape = Spec.getStorageMetadataShape := by rfl
 theorem sendBodySites : Facts.sendBodySites = Spec.sendBodySites := by rfl
+theorem runSizeLimiterShape : Facts.runSizeLimiterShape = Spec.runSizeLimiterShape := by rfl
 
 end Pins
